@@ -50,10 +50,14 @@ def kindOfName (s : String) : Option Nat :=
   if s = "HIDN" then some 0 else if s = "INPT" then some 1 else if s = "OUTP" then some 2
   else if s = "BIAS" then some 3 else none
 
-/-- float constants the reader uses: `0` (a fresh trait's parameters) and `1.0` (module link weight) -/
+/-- float constants the YAML reader uses: `0` (a fresh trait's parameters) and `1.0` (module link weight); and
+    `yf`, what yaml.v3 + `cast.ToFloat64E` give back for a float64 handed to the encoder: the same value, EXCEPT
+    negative zero, which is written `-0`, resolved as the integer 0 and converted to `+0.0` (measured on the real
+    code; the theorems ask `yf x = x` of every float of the genome) -/
 structure Consts (F : Type) where
   zero : F
   one : F
+  yf : F → F := id
 
 def encTrait (t : Trait F) : Val F := .map [("id", .int t.id), ("params", .list (t.params.map .flt))]
 
@@ -86,13 +90,13 @@ def encGenome (C : Codec F) (g : Genome F) : Val F :=
 def yamlWritable (C : Codec F) (g : Genome F) : Bool :=
   (g.nodes.all fun n => (C.actName n.act).isSome) && (g.modules.all fun m => (C.actName m.ctrl.act).isSome)
 
-/-- `cast.ToFloat64E` on each element of `params` -/
-def decFloats : List (Val F) → Except Err (List F)
+/-- a list of floats; `f` = what the codec layer does to each (`Consts.yf` for YAML, nothing for JSON) -/
+def decFloats (f : F → F) : List (Val F) → Except Err (List F)
   | [] => .ok []
   | .flt x :: r =>
-    match decFloats r with
+    match decFloats f r with
     | .error e => .error e
-    | .ok xs => .ok (x :: xs)
+    | .ok xs => .ok (f x :: xs)
   | _ :: _ => .error .badFloat
 
 /-- `readTrait`: a fresh trait has eight zero parameters; `nt.Params[i] = p` panics beyond the eighth -/
@@ -101,7 +105,7 @@ def decTrait (K : Consts F) (v : Val F) : Except Err (Trait F) :=
   | .map kvs =>
     match get kvs "id", get kvs "params" with
     | some (.int id), some (.list ps) =>
-      match decFloats ps with
+      match decFloats K.yf ps with
       | .error e => .error e
       | .ok xs =>
         if xs.length > numTraitParams then .error .panic
@@ -140,7 +144,7 @@ def decNodes (C : Codec F) (traits : List (Trait F)) : List Node → List (Val F
     | .ok n => if acc.any (·.id == n.id) then .error (.dupNode n.id) else decNodes C traits (acc ++ [n]) vs
 
 /-- `readGene` (a missing endpoint would be a nil pointer: see Model/PlainIO.lean) -/
-def decGene (traits : List (Trait F)) (nodes : List Node) (v : Val F) : Except Err (Gene F) :=
+def decGene (K : Consts F) (traits : List (Trait F)) (nodes : List Node) (v : Val F) : Except Err (Gene F) :=
   match v with
   | .map kvs =>
     match get kvs "trait_id", get kvs "src_id", get kvs "tgt_id", get kvs "innov_num" with
@@ -148,20 +152,20 @@ def decGene (traits : List (Trait F)) (nodes : List Node) (v : Val F) : Except E
       match get kvs "weight", get kvs "mut_num", get kvs "recurrent", get kvs "enabled" with
       | some (.flt w), some (.flt mnum), some (.bool recur), some (.bool en) =>
         if nodes.any (·.id == src) && nodes.any (·.id == dst) then
-          .ok { inn := inn, src := src, dst := dst, recur := recur, w := w, mnum := mnum, en := en,
+          .ok { inn := inn, src := src, dst := dst, recur := recur, w := K.yf w, mnum := K.yf mnum, en := en,
                 trait := traitRef traits tid }
         else .error .nilEndpoint
       | _, _, _, _ => .error .panic
     | _, _, _, _ => .error .panic
   | _ => .error .panic
 
-def decGenes (traits : List (Trait F)) (nodes : List Node) : List (Val F) → Except Err (List (Gene F))
+def decGenes (K : Consts F) (traits : List (Trait F)) (nodes : List Node) : List (Val F) → Except Err (List (Gene F))
   | [] => .ok []
   | v :: vs =>
-    match decGene traits nodes v with
+    match decGene K traits nodes v with
     | .error e => .error e
     | .ok g =>
-      match decGenes traits nodes vs with
+      match decGenes K traits nodes vs with
       | .error e => .error e
       | .ok gs => .ok (g :: gs)
 
@@ -198,7 +202,7 @@ def decModule (C : Codec F) (K : Consts F) (traits : List (Trait F)) (nodes : Li
             match decWires K nodes outs with
             | .error e => .error e
             | .ok wo =>
-              .ok { inn := inn, mnum := mnum, en := en,
+              .ok { inn := inn, mnum := K.yf mnum, en := en,
                     ctrl := { id := id, kind := Kind.hidden, act := a, trait := traitRef traits tid },
                     ins := wi, outs := wo }
         | _, _, _, _ => .error .panic
@@ -232,7 +236,7 @@ def decGenome (C : Codec F) (K : Consts F) (v : Val F) : Except Err (Genome F) :
           match decNodes C traits [] ns with
           | .error e => .error e
           | .ok nodes =>
-            match decGenes traits nodes gs with
+            match decGenes K traits nodes gs with
             | .error e => .error e
             | .ok genes =>
               match get gm "modules" with
@@ -266,7 +270,13 @@ def moduleOK [DecidableEq F] (C : Codec F) (K : Consts F) (traits : List (Trait 
      | some nm => C.actOfName nm == some m.ctrl.act) &&
     !nodes.any (·.id == m.ctrl.id) && m.ins.all (wireOK K nodes) && m.outs.all (wireOK K nodes)
 
+/-- the float survives the YAML layer unchanged (everything but negative zero) -/
+def yamlStable [DecidableEq F] (K : Consts F) (x : F) : Bool := decide (K.yf x = x)
+
 def WFyaml [DecidableEq F] (C : Codec F) (K : Consts F) (g : Genome F) : Bool :=
+  g.traits.all (fun t => t.params.all (yamlStable K)) &&
+  g.genes.all (fun x => yamlStable K x.w && yamlStable K x.mnum) &&
+  g.modules.all (fun m => yamlStable K m.mnum) &&
   g.traits.all (fun t => t.params.length == numTraitParams && t.id != 0) &&
   decide (g.traits.map (·.id)).Nodup &&
   decide (g.nodes.map (·.id)).Nodup &&
@@ -575,7 +585,7 @@ def decModel (C : Codec F) (v : Val F) : Except Err (FastModel F) :=
       | .ok nb, .ok nt =>
         match getList kvs "activation_functions", getList kvs "bias_list", getList kvs "connections", getList kvs "modules" with
         | .ok av, .ok bv, .ok cv, .ok mv =>
-          match decActs C av, decFloats bv, decLinks cv, decMods C mv with
+          match decActs C av, decFloats (fun x => x) bv, decLinks cv, decMods C mv with
           | .ok acts, .ok bl, .ok cs, .ok ms =>
             .ok { id := id, name := nm, nInput := ni, nSensor := nb + ni, nOutput := no, nBias := nb, nTotal := nt,
                   acts := acts, biasList := bl, conns := cs, modules := ms }
